@@ -176,6 +176,17 @@ def run(ctx):
                 ctx.violation(dict(kind='unrepresentable-value-written', type=impl.type_syntax(leaf), value=repr(bad), written=st.getvalue().hex(),
                                    how='DataType.write_to_stream(BytesIO(), value, 1) must raise for a value that is not an int'))
                 break
+        # a Python float beyond the range of FLOAT32 (alone, in a vector, in an array) is not representable: refused, never written as inf
+        for t, bad in ((('f32',), 1e39), (('f32',), -3.5e38), (('vec', 12), (1.0, 2.0, 1e39)), (('vec', 8), (-1e300, 0.0)), (('array', ('f32',), None), [1.0, 1e39]),
+                       (('f64',), 10 ** 400)):
+            try: lt = lib.make(t)
+            except Exception: continue
+            st = io.BytesIO(); ctx.case(None); ctx.count('float-out-of-range')
+            try: lt.write_to_stream(st, bad, 1)
+            except Exception: continue
+            ctx.violation(dict(kind='unrepresentable-value-written', type=impl.type_syntax(t), value=repr(bad), written=st.getvalue().hex(),
+                               how='DataType.write_to_stream(BytesIO(), value, 1) must raise for a float too large for the type (it was written as something else)'))
+            break
         # argument lists
         from replay_unpack.core.entity_def.entity_description import EntityMethod, MethodArgument
         bad_args = None
